@@ -13,7 +13,8 @@ export -f run
 for p in $props; do
   for m in selftest/mutants/$p/*.patch; do [ -f "$m" ] && echo "mutant $p $m 1"; done
   for m in selftest/neutral/$p/*.patch; do [ -f "$m" ] && echo "neutral $p $m 0"; done
-done | xargs -P ${JOBS:-8} -L1 bash -c 'run "$0" "$1" "$2" "$3"' | sort | tee /tmp/selftest.$$.log
-bad=$(grep -c '^BAD' /tmp/selftest.$$.log); tot=$(grep -c . /tmp/selftest.$$.log); rm -f /tmp/selftest.$$.log
+done | xargs --process-slot-var=KVM_SLOT -P ${JOBS:-8} -L1 bash -c 'run "$0" "$1" "$2" "$3"' | sort | tee /tmp/selftest.$$.log
+bad=$(grep -c '^BAD' /tmp/selftest.$$.log); tot=$(grep -c '^ok\|^BAD' /tmp/selftest.$$.log); rm -f /tmp/selftest.$$.log
+rm -rf "${VERIF_SCRATCH:-/var/tmp}"/kvm.slot.*
 echo "selftest: $tot patches, $bad unexpected"
 [ "$bad" = 0 ]
